@@ -768,3 +768,31 @@ def inline_value_helpers(expr, methods, selfname='self', depth=2):
                 return inline_value_helpers(subst(v, ren), methods, selfname, depth - 1)
             return n
     return T().visit(clone(expr))
+
+
+def expand_helper_value(cs, methods, selfname='self', **kw):
+    """if the value of case `cs` is a call `self.h(args)` of a method in `methods`, the list of cases that stand for
+    it: one per returning path of h, with h's branch decisions (parameters replaced by the arguments) added to the
+    path conditions of cs and h's returned value in place of the call; otherwise [cs]"""
+    v = cs.sub
+    if not (isinstance(v, ast.Call) and isinstance(v.func, ast.Attribute) and isinstance(v.func.value, ast.Name)
+            and v.func.value.id == selfname and v.func.attr in methods and not any(k.arg is None for k in v.keywords)):
+        d = cs.env.get('#def', {}).get(v.id) if isinstance(v, ast.Name) else None
+        if isinstance(d, ast.Call) and isinstance(d.func, ast.Attribute) and isinstance(d.func.value, ast.Name) \
+                and d.func.value.id == selfname and d.func.attr in methods:
+            v = d
+        else:
+            return [cs]
+    h = methods[v.func.attr]
+    params = [a.arg for a in h.args.args][1:]
+    ren = dict(zip(params, v.args))
+    ren.update((k.arg, k.value) for k in v.keywords if k.arg)
+    try:
+        inner = [c for c in return_cases(h, **kw) if c.kind == 'return']
+    except TooManyPaths:
+        return [cs]
+    out = []
+    for ic in inner:
+        out.append(Case(list(cs.conds) + [(subst(t, ren), p) for t, p in ic.conds], cs.node, subst(ic.sub, ren),
+                        dict(cs.env), cs.kind))
+    return out or [cs]
